@@ -35,7 +35,7 @@ type castEntry struct {
 }
 
 type clause struct {
-	Kind    string   // "entails" | "mstart" | "mend" | "story" | "edit" | "tempo"
+	Kind    string   // "entails" | "mstart" | "mend" | "story" | "edit" (literal pattern) | "redit" (regular expression, result supplied) | "pedit" (regular expression with its Coq twin) | "tempo"
 	Char    string   // scene (entails, mstart, mend)
 	Every   bool     // entails: target is `every <role>`
 	Target  string   // entails: actor or role
@@ -46,6 +46,8 @@ type clause struct {
 	Repl    string // edit: literal replacement
 	G       bool   // edit: trailing g
 	Sep     string // edit: separator character
+	Result  string // redit: regexp.ReplaceAllString(joined previous storyline), computed by the harness
+	Ast     string // pedit: the pattern Pat written again as a term of Model/Regex.v
 	Line    string // the rendered clause
 }
 
@@ -56,8 +58,6 @@ type scriptCase struct {
 	Clauses  []clause
 	TempoNs  int64
 	Res      cmd.VerifC06Result
-	Events   []pevent
-	PrintErr string
 	CLI      string // "", "same", "differs: ..."
 }
 
@@ -65,18 +65,6 @@ type pairCase struct {
 	A1, A2 string
 	Obs    string
 	Panic  string
-}
-
-type pevent struct {
-	Kind   string // act, wait, meanwhile, do, mood
-	I      int64
-	Story  string
-	HasSt  bool
-	Ns     int64
-	Actor  string
-	Action string
-	FailOk bool
-	Mood   string
 }
 
 var roleActions = map[string][]string{
@@ -144,6 +132,8 @@ func render(c *clause) {
 			g = "g"
 		}
 		c.Line = "edit s" + c.Sep + regexp.QuoteMeta(c.Pat) + c.Sep + c.Repl + c.Sep + g
+	case "redit", "pedit":
+		c.Line = "edit s/" + c.Pat + "/" + c.Repl + "/"
 	}
 }
 
@@ -165,52 +155,6 @@ func errCode(msg string) int64 {
 	return 999
 }
 
-var pActRe = regexp.MustCompile(`^# -- ACT (\d+)(?:: (.*))? --$`)
-var pLineRe = regexp.MustCompile(`^# +(\d+):  (.*)$`)
-var pWaitRe = regexp.MustCompile(`^\(wait until (.*)\)$`)
-var pMoodRe = regexp.MustCompile(`^\(mood: (.*)\)$`)
-var pDoRe = regexp.MustCompile(`^([^:()]+): (.*)([!?])$`)
-
-func parsePrinted(text string) ([]pevent, string) {
-	var evs []pevent
-	lines := strings.Split(strings.TrimSuffix(text, "\n"), "\n")
-	if len(lines) < 2 || lines[0] != "# play" || lines[len(lines)-1] != "# end" {
-		return nil, "missing # play / # end frame"
-	}
-	for _, l := range lines[1 : len(lines)-1] {
-		if strings.HasPrefix(l, "# -- REPEATING") {
-			continue
-		}
-		if m := pActRe.FindStringSubmatch(l); m != nil {
-			k, _ := strconv.ParseInt(m[1], 10, 64)
-			evs = append(evs, pevent{Kind: "act", I: k, Story: m[2], HasSt: strings.Contains(l, ": ")})
-			continue
-		}
-		m := pLineRe.FindStringSubmatch(l)
-		if m == nil {
-			return nil, "unreadable line: " + l
-		}
-		i, _ := strconv.ParseInt(m[1], 10, 64)
-		body := m[2]
-		if body == "(meanwhile)" {
-			evs = append(evs, pevent{Kind: "meanwhile", I: i})
-		} else if w := pWaitRe.FindStringSubmatch(body); w != nil {
-			d, err := time.ParseDuration(w[1])
-			if err != nil {
-				return nil, "unreadable duration: " + l
-			}
-			evs = append(evs, pevent{Kind: "wait", I: i, Ns: int64(d)})
-		} else if w := pMoodRe.FindStringSubmatch(body); w != nil {
-			evs = append(evs, pevent{Kind: "mood", I: i, Mood: w[1]})
-		} else if w := pDoRe.FindStringSubmatch(body); w != nil {
-			evs = append(evs, pevent{Kind: "do", I: i, Actor: w[1], Action: w[2], FailOk: w[3] == "?"})
-		} else {
-			return nil, "unreadable line: " + l
-		}
-	}
-	return evs, ""
-}
-
 func runScript(sc *scriptCase) {
 	sc.Preamble = preambleOf(sc.Cast)
 	var lines []string
@@ -222,8 +166,18 @@ func runScript(sc *scriptCase) {
 	if sc.Res.PreambleErr != "" {
 		panic("generator produced a bad preamble: " + sc.Res.PreambleErr + "\n" + sc.Preamble)
 	}
-	if sc.Res.FullErr == "" && sc.Res.FullPanic == "" {
-		sc.Events, sc.PrintErr = parsePrinted(sc.Res.Printed)
+	// regular-expression edits: Go's regexp is not modelled; the substituted
+	// text is computed here, from the storyline the hook reported before the
+	// clause, and handed to the model and the oracle.
+	for i := range sc.Clauses {
+		if sc.Clauses[i].Kind != "redit" {
+			continue
+		}
+		var prev []string
+		if i > 0 && i-1 < len(sc.Res.Steps) {
+			prev = sc.Res.Steps[i-1].StoryLine
+		}
+		sc.Clauses[i].Result = regexp.MustCompile(sc.Clauses[i].Pat).ReplaceAllString(strings.Join(prev, " "), sc.Clauses[i].Repl)
 	}
 }
 
@@ -310,6 +264,50 @@ func W(s string) string {
 	return id
 }
 
+// The printed dump is carried line by line through the same kind of
+// dictionary (pure compression: join_lines of the listed lines is the text,
+// byte for byte; checked here before writing).
+var lineVocab = map[string]string{}
+var lineOrder []string
+
+func coqText(text string) string {
+	if text == "" {
+		return "[]"
+	}
+	if !strings.HasSuffix(text, "\n") {
+		return vh.Str(text) // not a sequence of full lines: carried verbatim
+	}
+	lines := strings.Split(strings.TrimSuffix(text, "\n"), "\n")
+	var ids []string
+	var re strings.Builder
+	for _, l := range lines {
+		id, ok := lineVocab[l]
+		if !ok {
+			id = fmt.Sprintf("ln%d", len(lineVocab))
+			lineVocab[l] = id
+			lineOrder = append(lineOrder, l)
+		}
+		ids = append(ids, id)
+		re.WriteString(l + "\n")
+	}
+	if re.String() != text {
+		panic("coqText: lines do not reassemble to the text")
+	}
+	return "(join_lines " + vh.List(ids) + ")"
+}
+
+// lineDefs returns the definitions of the lines met since the last call and
+// starts a new dictionary (one per cases file).
+func lineDefs() string {
+	var b strings.Builder
+	for _, s := range lineOrder {
+		fmt.Fprintf(&b, "Definition %s : list byte := %s.\n", lineVocab[s], vh.Str(s))
+	}
+	lineVocab = map[string]string{}
+	lineOrder = nil
+	return b.String()
+}
+
 func vocabDefs() string {
 	var b strings.Builder
 	for _, s := range vocabOrder {
@@ -342,6 +340,10 @@ func coqClause(c *clause) string {
 		return "CStoryline " + vh.Str(c.Text)
 	case "edit":
 		return "CEdit (lit_replace " + vh.Str(c.Pat) + " " + vh.Str(c.Repl) + ")"
+	case "redit":
+		return "CEdit (fun _ => " + vh.Str(c.Result) + ")"
+	case "pedit":
+		return "CEdit (re_replace " + c.Ast + " " + vh.Str(c.Repl) + ")"
 	}
 	panic("coqClause: " + c.Kind)
 }
@@ -364,25 +366,6 @@ func coqPlay(p [][]cmd.VerifScene, nilActor [][][]bool) string {
 		acts = append(acts, vh.List(scs))
 	}
 	return vh.List(acts)
-}
-
-func coqEvents(evs []pevent) string {
-	var it []string
-	for _, e := range evs {
-		switch e.Kind {
-		case "act":
-			it = append(it, fmt.Sprintf("PAct %d %s", e.I, vh.Option(e.HasSt, vh.Str(e.Story))))
-		case "wait":
-			it = append(it, fmt.Sprintf("PWait %d %s", e.I, vh.Z(e.Ns)))
-		case "meanwhile":
-			it = append(it, fmt.Sprintf("PMeanwhile %d", e.I))
-		case "do":
-			it = append(it, fmt.Sprintf("PDo %d %s %s %s", e.I, W(e.Actor), W(e.Action), vh.Bool(e.FailOk)))
-		case "mood":
-			it = append(it, fmt.Sprintf("PMood %d %s", e.I, W(e.Mood)))
-		}
-	}
-	return vh.List(it)
 }
 
 func coqCase(sc *scriptCase) string {
@@ -409,7 +392,13 @@ func coqCase(sc *scriptCase) string {
 		}
 		cmds = append(cmds, coqClause(c))
 		if c.Kind == "edit" {
-			edits = append(edits, "("+vh.Str(c.Pat)+", "+vh.Str(c.Repl)+")")
+			edits = append(edits, "ELit "+vh.Str(c.Pat)+" "+vh.Str(c.Repl))
+		}
+		if c.Kind == "redit" {
+			edits = append(edits, "EText "+vh.Str(c.Result))
+		}
+		if c.Kind == "pedit" {
+			edits = append(edits, "ERe "+c.Ast+" "+vh.Str(c.Repl))
 		}
 	}
 	// the trace skips tempo clauses (they never touch the storyline); a
@@ -437,9 +426,9 @@ func coqCase(sc *scriptCase) string {
 		}
 	}
 	final := "None"
-	if sc.Res.FullErr == "" && sc.Res.FullPanic == "" && sc.PrintErr == "" {
+	if sc.Res.FullErr == "" && sc.Res.FullPanic == "" {
 		final = fmt.Sprintf("(Some (mkFinal %s %s %s))", story(sc.Res.StoryLine),
-			coqPlay(sc.Res.Play, sc.Res.NilActor), coqEvents(sc.Events))
+			coqPlay(sc.Res.Play, sc.Res.NilActor), coqText(sc.Res.Printed))
 	}
 	return strings.Join(lets, "") + fmt.Sprintf("mkCase %s %s %s %s %s %s", vh.List(cast), vh.Z(sc.TempoNs), vh.List(cmds), vh.List(edits), vh.List(trace), final)
 }
@@ -454,7 +443,10 @@ type gen struct {
 func (g *gen) pick(l []string) string { return l[g.rng.Intn(len(l))] }
 func (g *gen) chance(p float64) bool  { return g.rng.Float64() < p }
 
-var tempos = []string{"1s", "100ms", "0s", "1m30s", "250us", "1.5s", "2h", "7ns", "3ms"}
+// Scene times are compared in nanoseconds (int64(scene.waitUntil)) and, in the
+// printed dump, as text; sub-millisecond and non-integral tempos make both
+// comparisons bite.
+var tempos = []string{"1s", "100ms", "0s", "1m30s", "250us", "1.5s", "2h", "7ns", "3ms", "2500us", "1.5ms", "999999ns", "1h", "1h0m0.000000001s", "33.333ms"}
 var moods = []string{"red", "blue", "green", "clear", "dark"}
 
 func (g *gen) cast() []castEntry {
@@ -612,7 +604,15 @@ func (g *gen) randomScript(stream string) *scriptCase {
 			cl = append(cl, g.sceneDef(scenes[g.rng.Intn(len(scenes)):][:1], sc.Cast, false))
 		}
 		if g.chance(0.25) {
-			cl = append(cl, g.edit(scenes))
+			if g.chance(0.25) {
+				cl = append(cl, g.patternEdit(scenes))
+			} else if g.chance(0.2) {
+				e := [][2]string{{`(.)\+(.)`, "$2+$1"}, {" +", " "}, {`\.+`, "."}, {"^.", scenes[:1]}, {"[^ ]+$", scenes[:1] + "+" + scenes[:1]},
+					{`(\S)(\S)`, "$1 $2"}}[g.rng.Intn(6)]
+				cl = append(cl, clause{Kind: "redit", Pat: e[0], Repl: e[1]})
+			} else {
+				cl = append(cl, g.edit(scenes))
+			}
 		}
 	}
 	if g.chance(0.8) {
@@ -644,6 +644,175 @@ func (g *gen) edit(scenes string) clause {
 		pat = scenes[:1]
 	}
 	return clause{Kind: "edit", Pat: pat, Repl: r.String(), G: g.chance(0.3), Sep: g.pick([]string{"/", "/", "/", ",", "|"})}
+}
+
+// Edits whose replacement introduces `+`, `.`, `_` and blanks: merges that
+// create new groups, split or join acts, pad.
+var litEdits = [][2]string{
+	{"a", "a+b"}, {"a", "a b"}, {"b", "_b_"}, {"b", "."}, {"ab", "a.b"}, {"a", " a "}, {" ", "+"}, {" ", ""},
+	{"+", " "}, {".", "_"}, {"a", "b+a+."}, {"b", "a  b"}, {"+", "+.+"}, {".", ". ."}, {"a", "_"}, {"b", "+"},
+	{"a", "a_+_a"}, {" ", " . "}, {"ba", "b+a"}, {"a+b", "b"},
+}
+
+// Real regular expressions (classes, repetition, anchors, groups with $n in
+// the replacement); see runScript for how their result reaches the model.
+var reEdits = [][2]string{
+	{"a.", "ab"}, {"(a)(b)", "$2$1"}, {"[ab]", "."}, {"a+", "a"}, {`\.+`, "."}, {`(.)\+(.)`, "$2+$1"},
+	{"^.", "a"}, {".$", "b"}, {"b*", "_"}, {"(a|b)", "$1+$1"}, {`([ab])\.`, "$1 $1"}, {" +", " "}, {`\b`, "_"},
+	{"[^ ]+", "a"}, {"(?i)A", "b"}, {"a{2,}", "a.a"},
+}
+
+// rx is a regular expression written twice: as Go pattern text and as a term
+// of Model/Regex.v (the oracle's own matcher, leftmost-first).  Everything
+// composite is wrapped in a non-capturing group so that the two always parse
+// alike; repetition is only applied to expressions that cannot match the
+// empty string (the subset the Coq matcher claims).
+type rx struct {
+	pat, ast string
+	nullable bool
+	// simple: bytes, `.`, sets and their concatenations only.  Repetition is
+	// applied to simple expressions only: the oracle's matcher backtracks, and
+	// nested or ambiguous repetition ((a+)+, (a|a)*) would cost it exponential
+	// time on the longer storylines.
+	simple bool
+}
+
+func rxChr(c byte) rx {
+	return rx{regexp.QuoteMeta(string(c)), fmt.Sprintf("(Chr x%02x)", c), false, true}
+}
+func rxAny() rx { return rx{".", "Any", false, true} }
+func rxSet(neg bool, cs string) rx {
+	var it []string
+	for i := 0; i < len(cs); i++ {
+		it = append(it, fmt.Sprintf("x%02x", cs[i]))
+	}
+	p := "["
+	if neg {
+		p += "^"
+	}
+	return rx{p + regexp.QuoteMeta(cs) + "]", "(Set_ " + vh.Bool(neg) + " " + vh.List(it) + ")", false, true}
+}
+func rxEps() rx { return rx{"(?:)", "Eps", true, false} }
+func rxBol() rx { return rx{"^", "Bol", true, false} }
+func rxEol() rx { return rx{"$", "Eol", true, false} }
+func rxAlt(a, b rx) rx {
+	return rx{"(?:" + a.pat + "|" + b.pat + ")", "(Alt " + a.ast + " " + b.ast + ")", a.nullable || b.nullable, false}
+}
+func rxCat(a, b rx) rx {
+	return rx{a.pat + b.pat, "(Cat " + a.ast + " " + b.ast + ")", a.nullable && b.nullable, a.simple && b.simple}
+}
+func rxStar(greedy bool, a rx) rx {
+	q := "*"
+	if !greedy {
+		q = "*?"
+	}
+	return rx{"(?:" + a.pat + ")" + q, "(Star " + vh.Bool(greedy) + " " + a.ast + ")", true, false}
+}
+func rxPlus(greedy bool, a rx) rx {
+	q := "+"
+	if !greedy {
+		q = "+?"
+	}
+	return rx{"(?:" + a.pat + ")" + q, "(Plus " + vh.Bool(greedy) + " " + a.ast + ")", a.nullable, false}
+}
+func rxOpt(greedy bool, a rx) rx {
+	q := "?"
+	if !greedy {
+		q = "??"
+	}
+	return rx{"(?:" + a.pat + ")" + q, "(Opt " + vh.Bool(greedy) + " " + a.ast + ")", true, false}
+}
+
+// a fixed corpus where leftmost-first and leftmost-longest, greedy and lazy,
+// empty and non-empty matches differ
+func rxCorpus(x, y byte) []rx {
+	a, b, sp := rxChr(x), rxChr(y), rxChr(' ')
+	return []rx{
+		rxAlt(a, rxCat(a, b)),                         // a|ab
+		rxAlt(rxCat(a, b), a),                         // ab|a
+		rxCat(sp, rxCat(b, rxStar(false, rxAny()))),   // " b.*?"
+		rxCat(b, rxStar(true, rxAny())),               // b.*
+		rxCat(b, rxStar(true, rxSet(true, " "))),      // b[^ ]*
+		rxStar(false, a), rxStar(true, a), rxStar(true, b), // a*? a* b*
+		rxPlus(false, a), rxPlus(true, a),             // a+? a+
+		rxOpt(true, rxCat(a, rxAny())), rxOpt(false, a), // (a.)? a??
+		rxBol(), rxEol(), rxCat(rxBol(), rxAny()), rxCat(rxAny(), rxEol()),
+		rxCat(rxAlt(a, rxCat(a, b)), rxAlt(b, rxEps())), // (a|ab)(b|)
+		rxStar(true, sp), rxPlus(true, sp),              // " *" " +"
+		rxStar(true, rxCat(a, b)),                       // (ab)*
+		rxAlt(rxChr('.'), rxChr('+')),                   // \.|\+
+		rxCat(rxSet(false, string([]byte{x, y})), rxChr('+')), // [ab]\+
+		rxAlt(rxEps(), a),                               // |a
+		rxCat(a, rxAlt(rxEps(), b)),                     // a(|b)
+		rxCat(rxStar(false, rxAny()), b),                // .*?b
+		rxCat(rxStar(true, rxAny()), b),                 // .*b
+	}
+}
+
+// a random expression of the subset over the bytes of alpha
+func (g *gen) rx(depth int, alpha string) rx {
+	if depth <= 0 || g.chance(0.3) {
+		switch g.rng.Intn(8) {
+		case 0:
+			return rxAny()
+		case 1:
+			return rxSet(g.chance(0.3), alpha[:1+g.rng.Intn(len(alpha))])
+		case 2:
+			return []rx{rxBol(), rxEol(), rxEps()}[g.rng.Intn(3)]
+		default:
+			return rxChr(alpha[g.rng.Intn(len(alpha))])
+		}
+	}
+	switch g.rng.Intn(6) {
+	case 0:
+		return rxAlt(g.rx(depth-1, alpha), g.rx(depth-1, alpha))
+	case 1, 2:
+		return rxCat(g.rx(depth-1, alpha), g.rx(depth-1, alpha))
+	case 3:
+		for {
+			if a := g.rx(depth-1, alpha); !a.nullable && a.simple {
+				return rxStar(g.chance(0.5), a)
+			}
+		}
+	case 4:
+		for {
+			if a := g.rx(depth-1, alpha); !a.nullable && a.simple {
+				return rxPlus(g.chance(0.5), a)
+			}
+		}
+	default:
+		return rxOpt(g.chance(0.5), g.rx(depth-1, alpha))
+	}
+}
+
+// an edit whose pattern has a Coq twin; the replacement is literal
+func (g *gen) patternEdit(scenes string) clause {
+	var r rx
+	if g.chance(0.6) {
+		x, y := scenes[0], scenes[len(scenes)-1]
+		c := rxCorpus(x, y)
+		r = c[g.rng.Intn(len(c))]
+	} else {
+		r = g.rx(3, scenes+". +")
+	}
+	ralpha := scenes + scenes + ".+_ "
+	var rp strings.Builder
+	for i, m := 0, g.rng.Intn(3); i < m; i++ {
+		rp.WriteByte(ralpha[g.rng.Intn(len(ralpha))])
+	}
+	return clause{Kind: "pedit", Pat: r.pat, Ast: r.ast, Repl: rp.String()}
+}
+
+func (g *gen) shapeEdit() clause {
+	if g.chance(0.4) {
+		return g.patternEdit("ab")
+	}
+	if g.chance(0.5) {
+		e := litEdits[g.rng.Intn(len(litEdits))]
+		return clause{Kind: "edit", Pat: e[0], Repl: e[1], G: g.chance(0.3), Sep: "/"}
+	}
+	e := reEdits[g.rng.Intn(len(reEdits))]
+	return clause{Kind: "redit", Pat: e[0], Repl: e[1]}
 }
 
 // fixed definitions for the small-shape streams: a and b with entails for a
@@ -716,7 +885,6 @@ type jcase struct {
 	FullErr  string
 	Panic    string
 	Story    []string
-	PrintErr string
 }
 
 // replay runs the single case of a replay file again and writes it as
@@ -750,7 +918,7 @@ func replay(file, out string) {
 		names = append(names, "c0")
 	}
 	sb.WriteString("Definition script_cases : list c06_case := " + vh.List(names) + ".\n")
-	vh.WriteFile(out, "cases_0.v", vocabDefs()+sb.String())
+	vh.WriteFile(out, "cases_0.v", vocabDefs()+lineDefs()+sb.String())
 	vh.WriteFile(out, "pairs_0.v", "Definition pair_cases : list pair_case := "+pairs+".\n")
 }
 
@@ -761,7 +929,8 @@ func main() {
 	tier := flag.String("tier", "quick", "")
 	out := flag.String("out", ".", "")
 	bin := flag.String("bin", "", "the real shakespeare binary (for the -n -p cross-check)")
-	shardSize := flag.Int("shard", 320, "script cases per cases_<i>.v")
+	shardSize := flag.Int("shard", 1500, "at most this many script cases per cases_<i>.v")
+	shardBytes := flag.Int("shardbytes", 900000, "at most about this many bytes of cases per cases_<i>.v")
 	replayFile := flag.String("replay", "", "run the case of this replay file only")
 	flag.Parse()
 	if *replayFile != "" {
@@ -827,7 +996,7 @@ func main() {
 			scripts = append(scripts, smallScript("single-clause", []string{t}, nil, "1s"))
 		}
 	} else {
-		for i := 0; i < 700; i++ {
+		for i := 0; i < 550; i++ {
 			scripts = append(scripts, smallScript("single-clause", []string{clauseTexts[rng.Intn(len(clauseTexts))]}, nil, g.pick(tempos)))
 		}
 	}
@@ -854,7 +1023,7 @@ func main() {
 			}
 		}
 	}
-	nsmall := 1100
+	nsmall := 900
 	if thorough {
 		nsmall = 40000
 	}
@@ -882,8 +1051,35 @@ func main() {
 		}
 		scripts = append(scripts, smallScript("small-shapes", texts, edits, g.pick(tempos)))
 	}
+	// (2b) edits that reshape the storyline: literal replacements introducing
+	//      `+`, `.`, `_`, blanks, and real regular expressions, between clauses
+	nshape := 400
+	if thorough {
+		nshape = 15000
+	}
+	for i := 0; i < nshape; i++ {
+		cast, cl := smallDefs()
+		t := g.pick(tempos)
+		d, _ := time.ParseDuration(t)
+		sc := &scriptCase{Stream: "edit-shapes", Cast: cast, TempoNs: int64(d)}
+		cl = append(cl, clause{Kind: "tempo", Text: t})
+		nst := 1 + rng.Intn(3)
+		for j := 0; j < nst; j++ {
+			txt := pickAct()
+			for g.chance(0.45) {
+				txt += " " + pickAct()
+			}
+			cl = append(cl, clause{Kind: "story", Text: txt})
+			if j == 0 || g.chance(0.5) {
+				cl = append(cl, g.shapeEdit())
+			}
+		}
+		sc.Clauses = cl
+		runScript(sc)
+		scripts = append(scripts, sc)
+	}
 	// (3) random larger scripts
-	nrand := 700
+	nrand := 650
 	if thorough {
 		nrand = 30000
 	}
@@ -931,12 +1127,27 @@ func main() {
 		vh.WriteFile(*out, fmt.Sprintf("pairs_%d.v", npairShards), "Definition pair_cases : list pair_case := "+vh.ListNL(items[lo:hi])+".\n")
 		npairShards++
 	}
+	// Shards hold consecutive cases and are balanced by the size of their Coq
+	// text (coqc's time is proportional to it): at most shardBytes each, and
+	// at least 8 shards when there is enough to share out.
+	sizes := make([]int, len(scripts))
+	total := 0
+	for i, sc := range scripts {
+		sizes[i] = len(coqCase(sc))
+		total += sizes[i]
+	}
+	lineDefs() // forget the dictionary of the sizing pass
+	target := total/8 + 1
+	if target > *shardBytes {
+		target = *shardBytes
+	}
 	nshards := 0
 	var shardTexts []string
-	for lo := 0; lo < len(scripts); lo += *shardSize {
-		hi := lo + *shardSize
-		if hi > len(scripts) {
-			hi = len(scripts)
+	for lo := 0; lo < len(scripts); {
+		hi, acc := lo, 0
+		for hi < len(scripts) && (hi == lo || acc+sizes[hi] <= target) && hi-lo < *shardSize {
+			acc += sizes[hi]
+			hi++
 		}
 		var sb strings.Builder
 		var names []string
@@ -946,8 +1157,9 @@ func main() {
 			fmt.Fprintf(&sb, "Definition %s : c06_case := %s.\n", n, coqCase(sc))
 		}
 		sb.WriteString("Definition script_cases : list c06_case := " + vh.List(names) + ".\n")
-		shardTexts = append(shardTexts, sb.String())
+		shardTexts = append(shardTexts, lineDefs()+sb.String())
 		nshards++
+		lo = hi
 	}
 	for i, t := range shardTexts {
 		vh.WriteFile(*out, fmt.Sprintf("cases_%d.v", i), vocabDefs()+t)
@@ -956,14 +1168,14 @@ func main() {
 	var js []jcase
 	for _, sc := range scripts {
 		js = append(js, jcase{sc.Stream, sc.Cast, sc.Clauses, fullText(sc), sc.TempoNs, sc.Res.FullErr, sc.Res.FullPanic,
-			sc.Res.StoryLine, sc.PrintErr})
+			sc.Res.StoryLine})
 	}
 	vh.WriteJSON(*out, "cases.json", map[string]interface{}{"pairs": pairs, "scripts": js, "shard": *shardSize, "pair_shard": pairShard})
 
 	// ---- summary
 	streams := map[string]int{}
 	nontriv := map[string]bool{}
-	accepted, refused, withEdit, withMood, withPlus, panics, printErrs := 0, 0, 0, 0, 0, 0, 0
+	accepted, refused, withEdit, withMood, withPlus, panics := 0, 0, 0, 0, 0, 0
 	maxCols, maxActs := 0, 0
 	for _, sc := range scripts {
 		streams[sc.Stream]++
@@ -975,9 +1187,6 @@ func main() {
 				panics++
 			}
 		}
-		if sc.PrintErr != "" {
-			printErrs++
-		}
 		if sc.Res.FullErr != "" || sc.Res.FullPanic != "" {
 			refused++
 			continue
@@ -988,7 +1197,7 @@ func main() {
 			if c.Kind == "story" {
 				nStory++
 			}
-			if c.Kind == "edit" {
+			if c.Kind == "edit" || c.Kind == "redit" || c.Kind == "pedit" {
 				hasEdit = true
 			}
 		}
@@ -1041,7 +1250,7 @@ func main() {
 		"streams": streams, "accepted": accepted, "refused": refused,
 		"with_edit": withEdit, "with_mood": withMood, "with_plus_group": withPlus,
 		"max_act_bytes": maxCols, "max_acts": maxActs,
-		"panics": panics, "print_parse_errors": printErrs,
+		"panics": panics,
 		"pairs_exhaustive_len4": pairsExhaustive, "single_clause_exhaustive_len6": singleExhaustive,
 		"two_clauses_exhaustive_len3": twoExhaustive,
 		"small_valid_acts_len4": len(smallActs),
